@@ -91,7 +91,7 @@ def gen_stmts(draw, ind, name, params, feats):
             out += [ind + "sq = lambda z: z * z", ind + "r = sq(r) % 97"]
             feats.add("nested")
         elif k == 8:
-            out += [ind + "class A:", ind + ind + "w = 3", ind + ind + "def m(self, z):",
+            out += [ind + "class A:", ind + ind + "w = kc", ind + ind + "def m(self, z):",
                     ind + ind + ind + "return z + self.w", ind + "r = A().m(r)"]
             feats.add("nested")
         elif k == 9:
@@ -275,7 +275,7 @@ def plain_h(x):
     return x * 10 + 1
 
 
-GLOBALS = {"k": 7, "_ident": _ident, "_identf": _identf}
+GLOBALS = {"k": 7, "kc": 3, "_ident": _ident, "_identf": _identf}
 
 
 def reference_function(case):
@@ -359,6 +359,7 @@ def run_case(case):
     m._identf = _identf
     s = m.new_space("S")
     s.k = GLOBALS["k"]
+    s.kc = GLOBALS["kc"]        # a reference that formulas read only in a class body (a name load, not a global load)
     s.new_cells("h", "lambda x: x * 10 + 1")
     is_lambda = case["kind"] == "lambda"
     name = case["given_name"] if case["given_name"] else case["name"]
@@ -439,6 +440,7 @@ def run_case(case):
         # 3. idempotence
         s2 = m.new_space("T")
         s2.k = GLOBALS["k"]
+        s2.kc = GLOBALS["kc"]
         s2.new_cells("h", "lambda x: x * 10 + 1")
         try:
             c2 = s2.new_cells(name, source)
